@@ -547,6 +547,58 @@ async def _plain_call(f, args, kwargs):
     return f(*args, **kwargs)
 
 
+def _obs_misc(case):
+    """small oracle-only situations: `sync` of an async GENERATOR function (calling it gives a plain, non-awaitable object,
+    so the wrapper must hand that object out when awaited) and `apply` with the SAME re-awaitable object for two parameters
+    (each parameter is awaited: two awaits, two possibly different results)"""
+    if case["what"] == "sync-asyncgen":
+        async def agen(n):
+            yield n
+            yield n + 1
+
+        class Holder:
+            async def method(self, n):
+                yield n
+        target = Holder().method if case["bound"] else agen
+        try:
+            w = asyncstdlib.sync(target)
+            r = drive(w(5))
+        except BaseException as exc:  # noqa: B036
+            return {"got": ["raised", exc_name(exc)], "want": ["agen", [5, 6][: 1 if case["bound"] else 2]]}
+        if r.exc is not None:
+            return {"got": ["raised", exc_name(r.exc)], "want": ["agen", [5, 6][: 1 if case["bound"] else 2]]}
+        obj = r.value
+        items = []
+        if type(obj).__name__ == "async_generator":
+            while True:
+                rr = drive(obj.__anext__())
+                if rr.exc is not None:
+                    break
+                items.append(rr.value)
+        return {"got": [type(obj).__name__.replace("async_generator", "agen"), items], "want": ["agen", [5, 6][: 1 if case["bound"] else 2]]}
+    # apply with one re-awaitable object used for two parameters
+    log = []
+
+    class Recv:
+        def __init__(self):
+            self.n = 0
+
+        def __await__(self):
+            self.n += 1
+            log.append(["await", self.n])
+            yield from Susp(["u", "recv", self.n]).__await__()
+            return 10 if self.n == 1 else 3
+    recv = Recv()
+
+    def sub(a, b=None, **kw):
+        return [a, b if b is not None else kw.get("y")]
+    if case["kw"]:
+        r = drive(asyncstdlib.apply(sub, recv, y=recv))
+    else:
+        r = drive(asyncstdlib.apply(sub, recv, recv))
+    return {"got": ["raised", exc_name(r.exc)] if r.exc is not None else ["ret", r.value, log], "want": ["ret", [10, 3], [["await", 1], ["await", 2]]]}
+
+
 def _obs_syncseq(case):
     """one `sync(f)` wrapper called several times; the n-th call of `f` answers in style styles[n]:
     "p" plain value, "a" awaitable of the value, "P"/"A" the same but failing"""
@@ -599,6 +651,8 @@ def _obs_syncseq(case):
 
 
 def observe(case):
+    if case.get("t") == "misc":
+        return _obs_misc(case)
     if case.get("family") == "adaptersfail":
         return fam_adapters_fail.observe(case)
     t = case["t"]
@@ -627,6 +681,8 @@ def _item_json(i, s):
 
 
 def model_request(case):
+    if case.get("t") == "misc":
+        return None
     if case.get("family") == "adaptersfail":
         return fam_adapters_fail.model_request(case)
     t = case["t"]
@@ -863,6 +919,10 @@ def _judge_sync(case, obs, model):
 
 
 def judge(case, obs, model):
+    if case.get("t") == "misc":
+        if obs["got"] != obs["want"]:
+            return [Issue("oracle", obs, case["what"] + "-differs")]
+        return []
     if case.get("family") == "adaptersfail":
         return fam_adapters_fail.judge(case, obs, model)
     if case["t"] == "syncseq":
@@ -879,6 +939,8 @@ def judge(case, obs, model):
 
 
 def features(case, obs):
+    if case.get("t") == "misc":
+        return ["t=misc", "misc=" + case["what"]]
     if case.get("family") == "adaptersfail":
         return fam_adapters_fail.features(case, obs)
     t = case["t"]
@@ -906,6 +968,8 @@ def features(case, obs):
 
 
 def nontrivial(case, obs):
+    if case.get("t") == "misc":
+        return True
     if case.get("family") == "adaptersfail":
         return fam_adapters_fail.nontrivial(case, obs)
     t = case["t"]
@@ -1081,6 +1145,10 @@ def _syncseq_cases():
 
 def cases(tier, rng):
     yield from _syncseq_cases()
+    for bound in (False, True):
+        yield {"t": "misc", "what": "sync-asyncgen", "bound": bound}
+    for kw in (False, True):
+        yield {"t": "misc", "what": "apply-same-awaitable-twice", "kw": kw}
     # failure / cancellation / early-end paths with the ordered await log (Machines/AdaptersFail.lean)
     for c in fam_adapters_fail.cases(rng, 2500 if tier == "quick" else 30000):
         yield dict(c, t="adaptersfail")
